@@ -1,82 +1,75 @@
 """Generated/LogReaderConsts.v (used by C10 and C11): numeric constants of the reader / indexer that the model
-depends on, read from the working tree with `ast` (no import of the package).  Fail closed."""
-import ast, os, struct, sys
+depends on.  They are obtained by EVALUATING the working tree (the package is imported in a subprocess with
+PYTHONPATH=<repo>/python), never by matching source text: header size = MessageHeader.calcsize(), the indexer's
+_READ_SIZE_BYTES / _MAX_FE_MSG_SIZE_BYTES, and the sample size of MixedLogReader._populate_available_source_ids (the
+default of its parameter, or the literal the constructor passes if it passes one — found with ast).  Fail closed: a
+value that cannot be obtained or is not a positive integer raises (the property modules turn that into a failed
+obligation and continue on the last known constants)."""
+import ast, json, os, subprocess, sys
 sys.path.insert(0, os.path.join(os.path.dirname(__file__), '..', 'lib'))
 import vf
 
-DEFS = 'python/fusion_engine_client/messages/defs.py'
-FAST = 'python/fusion_engine_client/parsers/fast_indexer.py'
 READER = 'python/fusion_engine_client/parsers/mixed_log_reader.py'
+SRC = ['python/fusion_engine_client/messages/defs.py', 'python/fusion_engine_client/parsers/fast_indexer.py', READER]
+
+PROBE = r'''
+import inspect, json, warnings
+warnings.filterwarnings('ignore')
+from fusion_engine_client.messages import MessageHeader
+from fusion_engine_client.parsers import fast_indexer
+from fusion_engine_client.parsers.mixed_log_reader import MixedLogReader
+sig = inspect.signature(MixedLogReader._populate_available_source_ids)
+params = [p for p in sig.parameters.values() if p.name != 'self']
+print('CONSTS ' + json.dumps({
+    'header_size': int(MessageHeader.calcsize()),
+    'read_size_bytes': int(fast_indexer._READ_SIZE_BYTES),
+    'max_fe_msg_size_bytes': int(fast_indexer._MAX_FE_MSG_SIZE_BYTES),
+    'populate_default': (int(params[0].default) if params and params[0].default is not inspect.Parameter.empty else None),
+    'populate_param': params[0].name if params else None}))
+'''
 
 
-def _const(node):
-    """evaluate an int/str constant expression made of literals and + - * // << only"""
-    if isinstance(node, ast.Constant) and isinstance(node.value, (int, str)) and not isinstance(node.value, bool):
-        return node.value
-    if isinstance(node, ast.BinOp) and isinstance(node.op, (ast.Add, ast.Sub, ast.Mult, ast.FloorDiv, ast.LShift)):
-        a, b = _const(node.left), _const(node.right)
-        if isinstance(a, int) and isinstance(b, int):
-            return {ast.Add: a + b, ast.Sub: a - b, ast.Mult: a * b, ast.FloorDiv: a // b if b else None, ast.LShift: a << b}[type(node.op)]
-    raise RuntimeError('gen_c10: unsupported constant expression: ' + ast.dump(node))
-
-
-def _assign(body, name):
-    vals = []
-    for st in body:
-        tgt, val = None, None
-        if isinstance(st, ast.Assign) and len(st.targets) == 1 and isinstance(st.targets[0], ast.Name):
-            tgt, val = st.targets[0].id, st.value
-        elif isinstance(st, ast.AnnAssign) and isinstance(st.target, ast.Name) and st.value is not None:
-            tgt, val = st.target.id, st.value
-        if tgt == name:
-            vals.append(val)
+def _call_override():
+    """the literal int the constructor passes to _populate_available_source_ids, None if it passes nothing;
+    raises if the call cannot be understood"""
+    tree = ast.parse(vf.repo_file(READER))
+    calls = [n for n in ast.walk(tree) if isinstance(n, ast.Call) and isinstance(n.func, ast.Attribute)
+             and n.func.attr == '_populate_available_source_ids']
+    if not calls:
+        raise RuntimeError('gen_c10: _populate_available_source_ids is never called')
+    vals = set()
+    for c in calls:
+        args = list(c.args) + [k.value for k in c.keywords]
+        if not args:
+            vals.add(None)
+        elif len(args) == 1 and isinstance(args[0], ast.Constant) and isinstance(args[0].value, int):
+            vals.add(int(args[0].value))
+        else:
+            raise RuntimeError('gen_c10: cannot evaluate the argument of _populate_available_source_ids(...)')
     if len(vals) != 1:
-        raise RuntimeError('gen_c10: expected exactly one assignment of %s, found %d' % (name, len(vals)))
-    return vals[0]
-
-
-def _class(tree, name):
-    cs = [n for n in tree.body if isinstance(n, ast.ClassDef) and n.name == name]
-    if len(cs) != 1:
-        raise RuntimeError('gen_c10: class %s not found exactly once' % name)
-    return cs[0]
+        raise RuntimeError('gen_c10: _populate_available_source_ids is called with different sample sizes')
+    return vals.pop()
 
 
 def generate():
-    defs = ast.parse(vf.repo_file(DEFS))
-    fast = ast.parse(vf.repo_file(FAST))
-    rdr = ast.parse(vf.repo_file(READER))
-    fmt = _const(_assign(_class(defs, 'MessageHeader').body, '_FORMAT'))
-    if not isinstance(fmt, str):
-        raise RuntimeError('gen_c10: MessageHeader._FORMAT is not a string literal')
-    header_size = struct.calcsize(fmt)
-    read_size = _const(_assign(fast.body, '_READ_SIZE_BYTES'))
-    max_msg = _const(_assign(fast.body, '_MAX_FE_MSG_SIZE_BYTES'))
-    # default of num_messages_to_read in MixedLogReader._populate_available_source_ids
-    cls = _class(rdr, 'MixedLogReader')
-    fn = [n for n in cls.body if isinstance(n, ast.FunctionDef) and n.name == '_populate_available_source_ids']
-    if len(fn) != 1:
-        raise RuntimeError('gen_c10: _populate_available_source_ids not found')
-    args = fn[0].args
-    names = [a.arg for a in args.args]
-    if 'num_messages_to_read' not in names or not args.defaults:
-        raise RuntimeError('gen_c10: num_messages_to_read default not found')
-    dflt = args.defaults[names.index('num_messages_to_read') - (len(names) - len(args.defaults))]
-    nread = _const(dflt)
-    # the constructor must call it without overriding the default
-    calls = [n for n in ast.walk(cls) if isinstance(n, ast.Call) and isinstance(n.func, ast.Attribute)
-             and n.func.attr == '_populate_available_source_ids']
-    if len(calls) != 1 or calls[0].args or calls[0].keywords:
-        raise RuntimeError('gen_c10: _populate_available_source_ids is not called exactly once with its defaults')
-    for k, v in (('header_size', header_size), ('read_size', read_size), ('max_msg', max_msg), ('nread', nread)):
-        if not isinstance(v, int) or v <= 0:
-            raise RuntimeError('gen_c10: %s = %r is not a positive integer' % (k, v))
-    text = vf.gen_header([DEFS, FAST, READER]) + 'From Coq Require Import ZArith.\nOpen Scope Z_scope.\n'
-    text += '(* struct.calcsize(%r) *)\nDefinition header_size : Z := %d.\n' % (fmt, header_size)
-    text += 'Definition read_size_bytes : Z := %d.\nDefinition max_fe_msg_size_bytes : Z := %d.\n' % (read_size, max_msg)
-    text += 'Definition populate_count : nat := %d.\n' % nread
+    rc, so, se = vf.sh([vf.PY, '-c', PROBE], env=vf.IMPL_ENV, timeout=120)
+    line = [l for l in so.split('\n') if l.startswith('CONSTS ')]
+    if rc != 0 or not line:
+        raise RuntimeError('gen_c10: probing the working tree failed: %s' % (se[-600:],))
+    v = json.loads(line[0][7:])
+    override = _call_override()
+    nread = override if override is not None else v['populate_default']
+    consts = {'header_size': v['header_size'], 'read_size_bytes': v['read_size_bytes'],
+              'max_fe_msg_size_bytes': v['max_fe_msg_size_bytes'], 'populate_count': nread}
+    for k, x in consts.items():
+        if not isinstance(x, int) or isinstance(x, bool) or x <= 0:
+            raise RuntimeError('gen_c10: %s = %r is not a positive integer' % (k, x))
+    text = vf.gen_header(SRC) + 'From Coq Require Import ZArith.\nOpen Scope Z_scope.\n'
+    text += '(* MessageHeader.calcsize() *)\nDefinition header_size : Z := %d.\n' % consts['header_size']
+    text += 'Definition read_size_bytes : Z := %d.\nDefinition max_fe_msg_size_bytes : Z := %d.\n' % (consts['read_size_bytes'], consts['max_fe_msg_size_bytes'])
+    text += 'Definition populate_count : nat := %d.\n' % consts['populate_count']
     vf.write_if_changed(os.path.join(vf.THEORIES, 'Generated', 'LogReaderConsts.v'), text)
-    return {'header_size': header_size, 'read_size_bytes': read_size, 'max_fe_msg_size_bytes': max_msg, 'populate_count': nread}
+    return consts
 
 
 if __name__ == '__main__':
